@@ -1,8 +1,13 @@
 import os, sys
 sys.path.insert(0, os.path.join(os.path.dirname(os.path.abspath(__file__)), "..", "machine"))
 import mjobs
-OUTSIDE = "more than 2 servers in the machine harness; histories longer than one step from an arbitrary valid state"
+OUTSIDE = ("more than 2 servers in the send step / 3 in the health steps; histories longer than one step from an arbitrary valid "
+           "state (the steps re-establish the sortedness invariant: inductive); real skip list (reference list here, C19 for the real one)")
 ASSUMPTIONS = mjobs.ASSUMPTIONS
 
 def jobs(tier, seed):
-    return mjobs.sendquery_jobs(tier)
+    J = [dict(name="server_order", harness="server_order.c", real=[], support=["vp_rt.c", "world.c", "vsock.c"], unwind=4,
+              bound="server_sort_cb and the deadline comparator on three elements with ALL field values symbolic")]
+    J += mjobs.health_jobs(tier)
+    J += [j for j in mjobs.sendquery_jobs(tier) if "_sib0" in j["name"]]
+    return J
